@@ -86,8 +86,14 @@ def session(py7zr, names, via):
         stored = abstract(z.files[after - 1].filename) if after > before else {"lead": 0, "comps": [], "trail": False}
         if after > before:
             accepted.append(s)
-        evs.append({"e": via, "name": abstract(s), "str": s[:80], "before": before, "after": after, "exc": exc, "stored": stored})
-    z.close()
+        evs.append({"e": via, "name": abstract(s), "str": s[:80].encode("utf-8", "backslashreplace").decode(), "before": before, "after": after, "exc": exc, "stored": stored})
+    try:
+        z.close()
+    except UnicodeEncodeError:
+        # a name that UTF-16 cannot carry (lone surrogate): the session is refused as a whole - what must never happen is that the
+        # name is stored in another form than the one that was checked
+        evs.append({"e": "refused"})
+        return evs
     cb = io.BytesIO()
     with py7zr.SevenZipFile(cb, "w", filters=[{"id": py7zr.FILTER_COPY}]) as c:
         for s in accepted:
@@ -153,6 +159,12 @@ def run(tier, rep, ev):
                 uniq.append(s)
         traces.append(session(py7zr, uniq, "writestr" if i % 2 == 0 else "writef"))
         ev.case(("sess", i))
+    # names UTF-16 cannot carry (lone surrogates, as os.listdir() hands them out for undecodable bytes): the session may be refused, but a
+    # name must never reach the archive in another form than the one that was checked ('\udcff/evil' -> '/evil', '.\udcff./x' -> '../x')
+    for i, s in enumerate(["\udcff/evil.txt", ".\udcff./x", "a/\ud800", "\udc80\udc81/\udcff/b", "ok/\udcfe..\udcfe/y", ".\udcff", "\udcff.\udcff./z"]):
+        for via in ("writestr", "writef"):
+            traces.append(session(py7zr, ["plain.txt", s], via))
+            ev.case(("surrogate", i, via))
     # random Unicode names with traversal shapes
     alph = ["..", ".", "", "ä", "日本", "\U0001F600", " x", "c:", ".hidden", "a\tb", "dafj08sajfa", "a90sufoiasj09", "..."]
     for i in range(nsess):
